@@ -214,3 +214,60 @@ func verifHarness_C12_close_backoff() {
 	verifAssert(!ok, "C12/event-channel-closed")
 	verifReach("C12/backoff")
 }
+
+// C12, serial endpoint with an open in flight (one schedule): Close is issued while the provider is inside the open of
+// the device (the first open, when == 0, or a reopen after the device was lost, when == 1); the open then succeeds.
+// Close returns once it does, every goroutine has ended, and the port that open handed out is closed exactly once.
+func verifHarness_C12_close_mid_open(when int) {
+	old := serialOpenFunc
+	defer func() { serialOpenFunc = old }()
+	t1, t2 := &verifBlockRWC{}, &verifBlockRWC{}
+	opens := 0
+	release := false
+	serialOpenFunc = func(device string, baud int) (io.ReadWriteCloser, error) {
+		opens++
+		if opens == 1 {
+			return &verifBlockRWC{}, nil // existence check of initialize()
+		}
+		if opens == 2 && when == 1 {
+			return t1, nil
+		}
+		verifBlockUntil(&release) // the open is in progress
+		return t2, nil
+	}
+	n := &Node{Dialect: verifHarnessDialect, OutVersion: V2, OutSystemID: 1, HeartbeatDisable: true,
+		Endpoints: []EndpointConf{EndpointSerial{Device: "x", Baud: 57600}}}
+	var ierr error
+	verifRunGoroutines(func() { ierr = n.Initialize() })
+	verifAssert(ierr == nil, "C12/initialize-ok")
+	if when == 1 {
+		evt := <-n.chEvent
+		_, isOpen := evt.(*EventChannelOpen)
+		verifAssert(isOpen, "C12/open-event-first")
+		t1.wake = true // the device is unplugged: Read fails
+		verifRunGoroutines(nil)
+		evt = <-n.chEvent
+		_, isClose := evt.(*EventChannelClose)
+		verifAssert(isClose, "C12/mid-open/channel-closed-after-the-read-error")
+		verifRunGoroutines(nil)
+		verifAssert(opens == 3, "C12/mid-open/provider-is-reopening")
+	} else {
+		verifAssert(opens == 2, "C12/mid-open/provider-is-opening")
+	}
+	verifRunGoroutines(func() { n.Close() })
+	release = true
+	stillBlocked := verifRunGoroutines(nil)
+	verifAssert(!stillBlocked, "C12/close-returns-and-every-goroutine-has-ended")
+	verifAssert(verifBlockedGoroutines() == 0, "C12/no-goroutine-left-behind")
+	verifAssert(t2.closed == 1, "C12/mid-open/port-opened-during-close-is-closed-exactly-once")
+	if when == 1 {
+		verifAssert(t1.closed == 1, "C12/transport-or-connection-closed-exactly-once")
+	}
+	for {
+		_, ok := <-n.chEvent
+		if !ok {
+			break
+		}
+	}
+	verifReach("C12/mid-open")
+}
